@@ -5,6 +5,7 @@ package main
 
 import (
 	"fmt"
+	"math/big"
 	"go/token"
 	"go/types"
 	"strings"
@@ -46,7 +47,31 @@ func (f *Frame) callExtern(v ssa.Value, fn *ssa.Function, argVals []ssa.Value, a
 		f.lockOp(args[0], false, pos)
 	case "strconv.ParseInt":
 		res := mkRes()
+		// bitSize constant: a successful parse fits the requested width
+		if c, ok := argVals[2].(*ssa.Const); ok {
+			if n, ok := constBig(c); ok && n.Int64() > 0 && n.Int64() < 64 {
+				lim := new(big.Int).Lsh(big.NewInt(1), uint(n.Int64()-1))
+				f.enc.factAbout(res[0], Implies(Eq(App(SInt, "tag", res[1]), Zero), And(Le(BigLit(new(big.Int).Neg(lim)), res[0]), Lt(res[0], BigLit(lim)))))
+			}
+		}
 		f.setResults(v, res)
+	case "strconv.ParseFloat":
+		res := mkRes()
+		if c, ok := argVals[1].(*ssa.Const); ok {
+			if n, ok := constBig(c); ok && n.Int64() == 32 {
+				// a successful 32-bit parse is convertible to float32 without overflow (or is itself Inf/NaN)
+				f.enc.factAbout(res[0], Implies(Eq(App(SInt, "tag", res[1]), Zero),
+					mk(SBool, "(or (fp.isInfinite %[1]s) (fp.isNaN %[1]s) (not (fp.isInfinite ((_ to_fp 8 24) RNE %[1]s))))", res[0].S)))
+			}
+		}
+		f.setResults(v, res)
+	case "math.IsNaN":
+		f.setVal(v, App(SBool, "fp.isNaN", args[0]))
+	case "math.IsInf":
+		x, sg := args[0], args[1]
+		pos := mk(SBool, "(and (fp.isInfinite %[1]s) (fp.isPositive %[1]s))", x.S)
+		neg := mk(SBool, "(and (fp.isInfinite %[1]s) (fp.isNegative %[1]s))", x.S)
+		f.setVal(v, Or(And(Le(Zero, sg), pos), And(Le(sg, Zero), neg)))
 	case "strings.Repeat":
 		f.oblige("panic", "strings.Repeat-negative", pos, Le(Zero, args[1]))
 		f.setResults(v, mkRes())
@@ -94,6 +119,10 @@ func externDoc(name string) string {
 		return "returns a fresh non-nil error whose dynamic type is neither *Error nor Errors"
 	case name == "errors.As":
 		return "finds the first *Error / Errors in the chain; exact when the error itself has the target type"
+	case name == "strconv.ParseInt" || name == "strconv.ParseFloat":
+		return "a successful parse fits the requested bit size; value otherwise unconstrained"
+	case strings.HasPrefix(name, "math.Is"):
+		return "exact IEEE-754 semantics"
 	case strings.Contains(name, "sync."):
 		return "mutex semantics (ghost held-set)"
 	}
